@@ -7,7 +7,7 @@ and locks go away; empty removed containers disappear.
    plus the bounded form C44Bound (KRounds complete passes in the last epoch suffice) as an invariant.
 2. Bounded form on real code: TLC -simulate histories (puts, tombstones, locks, expirations, marks, container
    removals, deletes, flushes, epochs, GC passes; batch 1..2) + hand-chosen ones run on a REAL shard.Shard, then
-   "users stop; epoch ticks past every expiration; K = 12 GC passes"; the final event ExpectClean is accepted by
+   "users stop; epoch ticks past every expiration; K = 12 GC passes with a further epoch tick before every third"; the final event ExpectClean is accepted by
    spec/TraceShard.tla only if nothing is left (metabase garbage keys, expired records, removed containers, blobs,
    cache entries) and every recorded state along the way equals the model's."""
 import json
